@@ -11,6 +11,7 @@ from buidl.script import Script, WitnessScript
 from buidl.tx import Tx, TxIn, TxOut
 
 from vf.core import Discard, Sub, attempt, must, require
+from vf.gen import choice, rand_bytes
 from vf.ref import bip32, ec, psbtmap, txser
 
 HARD = bip32.HARD
@@ -103,8 +104,8 @@ def wallet_cases(draw):
     n_in = draw(st.integers(1, 2))
     return {
         "kind": draw(st.sampled_from(["p2sh", "p2wsh"])), "m": m, "n": n, "n_in": n_in,
-        "seeds": draw(st.lists(st.binary(min_size=16, max_size=16), min_size=n, max_size=n, unique=True)),
-        "attacker_seed": draw(st.binary(min_size=17, max_size=17)),
+        "seeds": list(draw(st.tuples(*[rand_bytes(16) for _ in range(3)]))[:n]),
+        "attacker_seed": draw(rand_bytes(17)),
         "in_idx": draw(st.lists(st.integers(0, 30), min_size=2, max_size=2, unique=True)),
         "in_amounts": draw(st.lists(st.integers(100000, 10**9), min_size=2, max_size=2)),
         "prev_out_index": draw(st.lists(st.integers(0, 2), min_size=2, max_size=2)),
@@ -125,10 +126,13 @@ TAMPER_IN = ["in_foreign_script", "in_wrong_path", "in_foreign_fingerprint", "in
              "in_prev_tx_amount", "in_prev_tx_other", "in_changed_quorum_script"]
 
 
+_TAMPER_CHOICE = choice(TAMPER_OUT + TAMPER_IN)
+
+
 @st.composite
 def tamper_cases(draw):
     c = draw(wallet_cases())
-    c["tamper"] = draw(st.sampled_from(TAMPER_OUT + TAMPER_IN))
+    c["tamper"] = draw(_TAMPER_CHOICE)
     c["which"] = draw(st.integers(0, 5))
     c["delta"] = draw(st.integers(1, 1000))
     if c["tamper"].startswith("out_") or c["tamper"] in ("second_change_output",):
